@@ -27,6 +27,10 @@ for g in ("before", "on"):
     SLOTS.append((g, "decorator", "dec", "d" + g[0]))
     # one callback name attached both as `before` and as `on` of the transition
     SLOTS.append((g, "inline", "sm", "shr"))
+# inline plain *callables* whose __name__ coincides with an (unreferenced) method of the machine,
+# the model and the listener: the callable that was given is the one that runs
+SLOTS.append(("before", "callable", "fn", "audit"))
+SLOTS.append(("on", "callable", "fn", "stamp"))
 VALUES = (None, 0, "", [], [1, 2], (1,), {}, "x", ValueError("rv"))   # a *returned* exception object
 KINDS = (("external", "e1"), ("external", "e2"), ("self", "e1"), ("internal", "e1"),
          ("internal", "e2"), ("none", "e1"))
@@ -37,18 +41,33 @@ CFGS = (("sync", Cfg("sync", True, True, "direct")), ("sync-nonrtc", Cfg("sync",
 LATE = {"on_transition": "late-on", "before_e1": "late-b1", "on_e2": "late-o2"}
 
 
+def late_names(pop):
+    """What the listener attached later provides: when the population has an inline *name*
+    (before="ib" / on="io" / the shared "shr"), only that name - no conventional name at all;
+    otherwise the conventional names."""
+    inline = [SLOTS[i][3] for i in pop if SLOTS[i][1] == "inline"]
+    if inline:
+        return {nm: f"late-{nm}" for nm in inline}
+    return LATE
+
+
 def make_spec(pop, kind, asyn, late=False):
     dst = "b" if kind == "external" else "a"
     fl = "a" if asyn else ""
     inl = {"before": [], "on": []}
     provided = []
     if late:
-        provided += [("L9", nm, fl) for nm in LATE]
+        provided += [("L9", nm, fl) for nm in late_names(pop)]
     for si in pop:
         (g, way, p, nm) = SLOTS[si]
         if way == "decorator":
             inl[g].append("%" + nm)
             provided.append(("dec", nm, fl))
+        elif way == "callable":
+            inl[g].append("@" + nm)
+            provided.append(("fn", nm, fl))
+            for decoy in ("sm", "model", "L1"):
+                provided.append((decoy, nm, fl))
         else:
             if (p, nm, fl) not in provided:
                 provided.append((p, nm, fl))
@@ -71,7 +90,7 @@ def make_spec(pop, kind, asyn, late=False):
 
 def cid_of(slot):
     (g, way, p, nm) = slot
-    return ("sm" if p == "dec" else p, nm)
+    return ("sm" if p == "dec" else p, nm)     # ("fn", name) for inline callables
 
 
 def check_result(exp_groups, obs):
@@ -182,7 +201,7 @@ def run_late(built, pop, kind, cfg, rets, vi):
     asyn = cfg.engine == "async"
     m1 = make_spec(pop, kind, asyn, late=True)
     rets = dict(rets)
-    rets.update({("L9", nm): v for nm, v in LATE.items()})
+    rets.update({("L9", nm): v for nm, v in late_names(pop).items()})
     p = Pair(built, cfg, plan=Plan(rets=rets, rules={}))
     msg = p.construct()
     gv = {"gok": True, "vok": True}
@@ -194,7 +213,7 @@ def run_late(built, pop, kind, cfg, rets, vi):
                 msg = check_result(p.last[0].groups, p.last[1].value)
     if msg:
         return "before attaching: " + msg, p
-    lsn = listener_class("L9", {nm: {"L9"} for nm in LATE}, asyn)()
+    lsn = listener_class("L9", {nm: {"L9"} for nm in late_names(pop)}, asyn)()
     p.impl.sm.add_listener(lsn)
     p.ref.m = m1
     p.ref.trans_of = {}
